@@ -188,6 +188,20 @@ class InteractingS(NetworkS):
         NetworkS.__init__(self, False)
         self.name = "InteractingNetworks"
 
+    def gen(self, rng, small=True):
+        m = _rand_net_model(rng, False)
+        if rng.random() < 0.4:
+            # two components: unreachable pairs between (and inside) groups
+            n = len(m["A"])
+            cut = int(rng.integers(1, n))
+            perm = rng.permutation(n)
+            a, b = perm[:cut], perm[cut:]
+            m["A"][np.ix_(a, b)] = 0
+            m["A"][np.ix_(b, a)] = 0
+            if "w" in m["attrs"]:
+                m["attrs"]["w"] = m["attrs"]["w"] * (m["A"] != 0)
+        return m
+
     def build(self, m):
         from pyunicorn.core import InteractingNetworks
         net = InteractingNetworks(adjacency=m["A"], directed=False,
